@@ -983,6 +983,15 @@ def body(ctx):
             stats["elements"] += 1
             nontriv = fin(a)
             dom = G.in_domain(cls, op, case["params"], ins[k]) if ins is not None else True
+            if ins is not None and ins[k] != ins[k]:
+                dom = False          # a NaN input is not a point of the domain (e.g. Yeo-Johnson's nan**0 = 1 at lam = 1)
+            if dom and ins is not None and op == "jac" and cls in ("Log",) + BOXCOX + ("BoxCox2sym",):
+                # inside the guard (x + nu > mininu, mininu < 0) but outside the domain of the formula (x + nu <= 0):
+                # whatever np.power / division give there is not constrained by the property
+                pp = case["params"]
+                sdom = (abs(ins[k]) if cls == "BoxCox2sym" else ins[k]) + pp["nu"]
+                if fin(ins[k]) and pp["nu"] == pp["nu"] and not sdom > 0:
+                    dom = False
             if dom is False:
                 stats["outside_domain_not_compared"] += 1
                 ctx.count((req, k), False, f"{cls}/{op}/outside-domain")
